@@ -292,6 +292,33 @@ class SFilterGen:
         return it.eval(self.node.elt, fr)
 
 
+class OpaqueMember(GhostFn):
+    """member of an unmodelled child: callable, indexable, attribute-bearing; always another opaque member"""
+
+    __pyvc_symbolic__ = True
+
+    def __init__(self):
+        GhostFn.__init__(self, lambda it, a, k: OpaqueMember(), "opaque member")
+
+    def sym_truth(self, it):
+        return bool(it.path.branch(it.path.fresh("opaque_truth", z3.BoolSort())))
+
+    def sym_getattr(self, it, name):
+        return OpaqueMember()
+
+    def sym_setattr(self, it, name, v):
+        return None
+
+    def sym_getitem(self, it, key):
+        return OpaqueMember()
+
+    def sym_is_none(self, it):
+        return bool(it.path.branch(it.path.fresh("opaque_is_none", z3.BoolSort())))
+
+    def sym_iter(self, it):
+        return []
+
+
 class SChild:
     __pyvc_symbolic__ = True
     """Handle to the child at (symbolic) position `pos` of `parent`."""
@@ -332,7 +359,18 @@ class SChild:
             return qn(self.parent.table.tags[self.tagid])
         if name in self.fields:
             return self.fields[name]
+        if getattr(self.parent, "opaque_children", False):
+            # the contract is about the parent's child sequence only: whatever a child does to its own subtree or attributes is not
+            # modelled (assumption recorded by the contract)
+            it.path.assumed.add("a method or attribute of a child element changes that child's own subtree / attributes only")
+            return OpaqueMember()
         raise Unsupported("attribute %s on an abstract child handle (tag-sequence view)" % name)
+
+    def sym_setattr(self, it, name, v):
+        if getattr(self.parent, "opaque_children", False):
+            self.fields[name] = v
+            return
+        raise Unsupported("attribute store on %r" % (self,))
 
     def _add(self, it, elm, off):
         it.path.assumed.add("lxml addprevious/addnext(e): e is inserted as the sibling immediately before/after")
